@@ -691,7 +691,12 @@ class Ctx:
             mo = parse_model(resp, self.fields)
             if mo[0] == "err" and mo[1] == "unmodelled":
                 self.n_unmodelled += 1
-                self.count("model:unmodelled(type confusion)")
+                if desc.get("stream") == "layout" and desc.get("include"):
+                    self.count("model:unmodelled(include statement outside the modelled fragment)")
+                    if os.environ.get("C15_DEBUG"):
+                        print("UNMODELLED-INCLUDE", desc.get("md"), desc.get("cwd"), file=sys.stderr)
+                else:
+                    self.count("model:unmodelled(type confusion)")
                 continue
             ok = False
             if mo[0] == "ok" and obs[0] == "ok":
@@ -1625,7 +1630,7 @@ def run(tier: str, seed: int, replay: str | None = None) -> int:
     n_micro = 1500 if quick else 15000
     n_combo = 260 if quick else 4000
     n_bad = 160 if quick else 2500
-    n_layout = 220 if quick else 3000
+    n_layout = 170 if quick else 2500
     reps_single = 3 if quick else 12
     with common.scratch_dir() as d0:
         d = Path(os.path.realpath(d0))
@@ -1724,7 +1729,9 @@ def run(tier: str, seed: int, replay: str | None = None) -> int:
         evaluations=cx.evals + ev_micro,
         distinct_nontrivial=len(cx.distinct),
         rule="an evaluation is one run of ford.initialize() (or one micro request); non-trivial = a well-typed abstract "
-             "option set with at least one option, run in all three formats; distinct by digest of (options, values, CLI dests)",
+             "option set with at least one option, run in all three formats, or one layout case (project + manifests elsewhere + "
+             "text files + 4-5 starts from different working directories); distinct by digest of (options, values, CLI dests) / "
+             "of the whole layout",
         samples=cx.samples,
         traces_validated_against_impl=cx.evals + ev_micro - cx.n_unmodelled,
         correspondence_disagreements=cx.n_corr_bad + bad_micro,
@@ -1742,6 +1749,14 @@ def run(tier: str, seed: int, replay: str | None = None) -> int:
         "creation_date is compared only when it contains no strftime directive",
         "ASCII whitespace only (str.strip / str.split on other Unicode spaces not modelled); no '$' in paths (expandvars), "
         "no symlinks below the project directory, no leading '//'",
+        "layout stream (round 6): the file system the model sees is the list of fpm.toml files the harness wrote (state = the "
+        "harness's own tomllib reading: absent / not TOML / no [extra] / no [extra.ford] / the table) and the text files it "
+        "wrote (lines as Python's readlines() returns them); directories exist, no symlinks, no '~' or '$' in names",
+        "include workaround of the metadata format: modelled exactly on the documented shape `pre{! name !}post` (one statement "
+        "per line, included files free of include statements); any other text containing `{!` is `unmodelled` (counted); "
+        "markdown_include's regex is compared with the model's line reader in the micro stream `incline`; include values are "
+        "generated for the metadata format only (fpm.toml / --config keep the text literally - a documented, deprecated "
+        "difference between the formats that oracle O1 is not asked about)",
         "Python type confusions downstream of an ill-typed TOML / --config value are `unmodelled` (skipped in the "
         "correspondence, counted); the oracle still evaluates them",
     ]
